@@ -48,6 +48,12 @@ def job(a):
     res = wv.res
     try:
         cases = []
+        # cases a module marks as relevant to build options (not counted against the per-module limit)
+        if wid == 0 and hasattr(mod, 'c14_priority'):
+            for spec in mod.c14_priority(random.Random(sd ^ 0xc14), tier):
+                case = mod.build(spec, wv.env)
+                if case is not None: case.spec = spec; cases.append(case)
+        limit += len(cases)
         for spec in mod.specs(wv.rng, 'quick', wid, nw, wv.env):
             if spec[0] in ('sweep', 'battery', 'hugeidx'): continue
             case = mod.build(spec, wv.env)
